@@ -723,6 +723,160 @@ func c13CheckRedump(w *fw.W, c *c13RT, dc c13DocCase, m c13Mode, lv *lisp.LVal, 
 	if t3.IsErr || v3.Type != lisp.LSymbol || v3.Str != "true" {
 		w.Violation("redump-load-not-equal?:"+m.String(), "(equal? l (json:load (json:dump l))) is not true for a loaded value l",
 			detail("dump: "+c13Q(d1.Str)+"\n=> "+t3.Value))
+		return
+	}
+	if fw.HashString(d1.Str)&2 == 0 {
+		c13CheckRespelled(w, c, lv, d1.Str, detail)
+	}
+}
+
+// c13NameClass names the family of an object name that came out of a document
+// (the value side knows the family by construction, see c13GenKey).
+func c13NameClass(name string) string {
+	in := func(xs []string) bool {
+		for _, x := range xs {
+			if x == name {
+				return true
+			}
+		}
+		return false
+	}
+	switch {
+	case name == "":
+		return "empty"
+	case in(c13JSONLiteralNames):
+		return "json-literal"
+	case in(c13LiteralLookalikeNames):
+		return "literal-lookalike"
+	}
+	if _, ok := c13x.ParseNum(name); ok {
+		return "number-lookalike"
+	}
+	seen := map[string]bool{}
+	for _, ch := range c13SplitChars(name) {
+		seen[c13CharClass(ch)] = true
+	}
+	for _, cl := range c13StrClassRank {
+		if seen[cl] {
+			return "string:" + cl
+		}
+	}
+	return "string:ascii"
+}
+
+var c13NameClassRank = []string{"json-literal", "literal-lookalike", "number-lookalike", "empty"}
+
+// c13CheckRespelled takes one object of a loaded value, writes its keys again
+// as SYMBOLS of the same names -- the first through (assoc m 'k v), which
+// copies the decoder's map into an ordinary sorted-map, the others in place --
+// and dumps the result.  'k and "k" are the same key (docs/lang.md, "Sorted
+// Maps": the spelling "is presentation only: it is not part of the key's
+// identity"), so the map holds the same data and its dump must be a JSON text
+// that reads back to it.
+func c13CheckRespelled(w *fw.W, c *c13RT, lv *lisp.LVal, d1 string, detail func(string) string) {
+	var maps []*lisp.LVal
+	var find func(v *lisp.LVal)
+	find = func(v *lisp.LVal) {
+		if len(maps) >= 16 || v == nil {
+			return
+		}
+		switch v.Type {
+		case lisp.LSortMap:
+			if v.Len() > 0 {
+				maps = append(maps, v)
+			}
+			ents := v.MapEntries()
+			if ents.Type != lisp.LError {
+				for _, p := range ents.Cells {
+					find(p.Cells[1])
+				}
+			}
+		case lisp.LArray:
+			if len(v.Cells) == 2 {
+				for _, e := range v.Cells[1].Cells {
+					find(e)
+				}
+			}
+		}
+	}
+	find(lv)
+	if len(maps) == 0 {
+		return
+	}
+	h := fw.HashString(d1) >> 2
+	m0 := maps[h%uint64(len(maps))]
+	ents := m0.MapEntries()
+	if ents.Type == lisp.LError || len(ents.Cells) == 0 || len(ents.Cells) > 64 {
+		return
+	}
+	// the most token-like name goes through assoc
+	first, firstRank := 0, len(c13NameClassRank)
+	for i, p := range ents.Cells {
+		if !c13x.ValidUTF8([]byte(p.Cells[0].Str)) {
+			return
+		}
+		cl := c13NameClass(p.Cells[0].Str)
+		for rk, x := range c13NameClassRank {
+			if x == cl && rk < firstRank {
+				first, firstRank = i, rk
+			}
+		}
+	}
+	if firstRank == len(c13NameClassRank) {
+		first = int((h >> 8) % uint64(len(ents.Cells)))
+	}
+	name := ents.Cells[first].Cells[0].Str
+	cls := c13NameClass(name)
+	c.set("c13-m", m0)
+	c.set("c13-k", lisp.Symbol(name))
+	c.set("c13-kv", ents.Cells[first].Cells[1])
+	t, m1 := c.eval("(assoc c13-m c13-k c13-kv)")
+	w.Eval(1)
+	w.Count("c13_respelled_redumps", 1)
+	w.SetAdd("c13_respelled_name_classes", cls)
+	if t.IsErr || m1.Type != lisp.LSortMap {
+		// assoc itself is not C13's subject
+		w.Count("c13_respell_assoc_failed", 1)
+		return
+	}
+	respelled := []string{name}
+	for i, p := range ents.Cells {
+		if i != first && (h>>(16+uint(i%32)))&1 == 0 {
+			if rc := m1.Map().Set(lisp.Symbol(p.Cells[0].Str), p.Cells[1]); rc != nil && rc.Type == lisp.LError {
+				w.Count("c13_respell_assoc_failed", 1)
+				return
+			}
+			respelled = append(respelled, p.Cells[0].Str)
+		}
+	}
+	// blame: the family of the first re-written name that fails on its own as
+	// the one-entry map {'name 1}
+	blame := func() string {
+		for _, nm := range respelled {
+			one := &c13Val{kind: c13VMap, keys: []c13Key{{kind: c13KSym, name: nm}}, elems: []*c13Val{{kind: c13VInt, i: 1}}}
+			if c13SingleBroken(c, one) {
+				return c13NameClass(nm)
+			}
+		}
+		return "composite"
+	}
+	c.set("c13-m1", m1)
+	t1, dd := c.eval("(json:dump-string c13-m1)")
+	w.Eval(1)
+	what := fmt.Sprintf("object %s of the loaded value, key %s (and others) written again as a symbol via (assoc m 'k v)", c13Show(m0), c13Q(name))
+	if t1.IsErr || dd.Type != lisp.LString {
+		w.Violation("redump-respelled-failed:"+blame(), "json:dump failed on a loaded map after a key was re-written as a symbol", detail(what+"\ndump: "+t1.Value))
+		return
+	}
+	doc := c13x.Parse([]byte(dd.Str))
+	if !doc.Valid || !doc.UTF8 {
+		w.Violation("redump-respelled-invalid-json:"+blame(), "the dump of a loaded map whose key was re-written as a symbol of the same name is not valid JSON",
+			detail(what+"\ndump: "+c13Q(dd.Str)+" "+doc.Err))
+		return
+	}
+	if why, kind := c13CmpRedump(doc.Root, m1, "$"); why != "" {
+		w.Violation("redump-respelled-"+kind+":"+blame(), "the dump of a loaded map whose key was re-written as a symbol of the same name does not read back to it: "+why,
+			detail(what+"\ndump: "+c13Q(dd.Str)+"\n"+why))
 	}
 }
 
